@@ -145,6 +145,9 @@ def parseFixed (raw : List (List Char × Int)) : List (List Char × Int) :=
 def Cfg.normalize (opt : Bool) (stale maxSize : Int) (rawFixed : List (List Char × Int)) : Cfg :=
   ⟨opt, if stale = 0 ∧ maxSize = 0 then 60 else stale, maxSize, parseFixed rawFixed⟩
 
+/-- `normalizeDnsRuntimeBehavior` refuses a negative stale window (0 = stale answers never expire) -/
+def Cfg.accepted (stale : Int) : Bool := decide (0 ≤ stale)
+
 /-- Go map lookup in the `fixedDomainTtl` table -/
 def lookupFixed : List (List Char × Int) → List Char → Option Int
   | [], _ => none
